@@ -3,6 +3,8 @@ import Driver.DictRt
 import Driver.Codec
 import Model.Conn
 import Model.Listener
+import Model.ConnWrite
+import Gen
 /-! Driver.Conn — the `conn serve` correspondence domain (C08, C14, C15, C05 over a connection). -/
 namespace DV.Drv
 
@@ -164,5 +166,66 @@ def judgeAccept (evTok : String) (impl : List String) : Judged :=
   let fails := if groups.length = evs.length + 1 then fails else fails ++ ["C15:event-count-differs"]
   { model := " ; ".intercalate (outs ++ [wantAlive]), fails := fails.eraseDups.take 3,
     tags := [s!"accept events={evs.length} spawned={s.spawned} temp={s.slept.length} maxsleep={s.slept.foldl max 0} stopped={!s.running}"] }
+
+/-- `conn lw ev=O,Q0,X0E,W0,.. => res=ok,ok,.. | c0=<id.id> c1=..`: which transport the writes
+    through each connection reach (message id = 1000 + index of the event). -/
+def judgeConnLW (evTok : String) (impl : List String) : Judged :=
+  let toks := (evTok.splitOn ",").filter (· ≠ "")
+  let pooled := Gen.connBufferSources ≠ ["c.buf=bufio.NewReadWriter(bufio.NewReader(&c.sr),bufio.NewWriter(rwc))"]
+  let numOf := fun (t : String) (dropLast : Bool) =>
+    let body := (t.drop 1).toString
+    let body := if dropLast then (body.take (body.length - 1)).toString else body
+    body.toNat?
+  -- run the model; remember through which connection each id was written
+  let (S, res, via, _) := toks.foldl (fun (acc : OwSys × List String × List (Nat × Nat) × Nat) (t : String) =>
+      let (S, res, via, i) := acc
+      let id := 1000 + i
+      let c0 := t.front
+      if c0 = 'O' then ((S.step pooled .openConn).1, res ++ ["ok"], via, i + 1)
+      else if c0 = 'X' then
+        match numOf t true with
+        | some k => let (S', r) := S.step pooled (.die k); (S', res ++ [if r = .ok then "ok" else "skip"], via, i + 1)
+        | none => (S, res ++ ["skip"], via, i + 1)
+      else if c0 = 'Q' then
+        match numOf t false with
+        | some k =>
+          (match S.conns[k]? with
+           | some c => if c.alive then
+                let (S', r) := S.step pooled (.write k id)
+                (S', res ++ [if r = .ok then "ok" else "err"], via ++ [(id, k)], i + 1)
+              else (S, res ++ ["skip"], via, i + 1)
+           | none => (S, res ++ ["skip"], via, i + 1))
+        | none => (S, res ++ ["skip"], via, i + 1)
+      else if c0 = 'W' then
+        match numOf t false with
+        | some k =>
+          let (S', r) := S.step pooled (.write k id)
+          (S', res ++ [match r with | .ok => "ok" | .err => "err" | .skip => "skip"], via ++ [(id, k)], i + 1)
+        | none => (S, res ++ ["skip"], via, i + 1)
+      else (S, res ++ ["skip"], via, i + 1)) (({} : OwSys), [], [], 0)
+  let showWire := fun (j : Nat) (c : OwConn) =>
+    s!"c{j}={if c.wire.isEmpty then "-" else ".".intercalate (c.wire.map (fun p => toString p.2))}"
+  let wires := (List.range S.conns.length).filterMap (fun j => (S.conns[j]?).map (showWire j))
+  let out := s!"res={",".intercalate res} | {if wires.isEmpty then "-" else " ".intercalate wires}"
+  let implOut := " ".intercalate impl
+  Id.run do
+    let mut fails : List String := []
+    -- Spec verdict on the implementation's own report: every transport holds only messages
+    -- written through its own connection, whole
+    for w in impl do
+      match w.splitOn "=" with
+      | [c, ids] =>
+        if c.startsWith "c" ∧ ids ≠ "-" then
+          let j := (c.drop 1).toString.toNat?.getD 0
+          for t in ids.splitOn "." do
+            match t.toNat? with
+            | some id =>
+              match via.find? (fun p => p.1 = id) with
+              | some (_, k) => if k ≠ j then fails := "C15:write-through-one-connection-reaches-another-connection" :: fails
+              | none => fails := "C15:transport-received-a-message-nobody-wrote" :: fails
+            | none => fails := "C07:transport-received-malformed-or-partial-message" :: fails
+      | _ => pure ()
+    return { model := out, fails := (if fails.isEmpty ∧ implOut ≠ out then [] else fails.reverse.eraseDups.take 2),
+             tags := [s!"lw conns={S.conns.length} events={toks.length} dead={(S.conns.filter (fun c => ¬ c.alive)).length} latewrites={(toks.filter (fun t => t.startsWith "W")).length}"] }
 
 end DV.Drv
